@@ -1,10 +1,10 @@
 SPECIFICATION Spec
 CONSTANTS
-  Threads = {1, 2}
+  Threads = {1, 2, 3}
   Names = {"b", "n"}
   Cons = {"n"}
   Local = FALSE
-  Variant = "locked"
+  Variant = "deferred"
 INVARIANT P_AsAlone
 INVARIANT P_LockFree
 PROPERTY Termination
